@@ -243,5 +243,179 @@ theorem mass_bridge (env : Pept.Env) (a : Annotation) (o : Mass.Opts)
     rw [this]
     exact massFast_concrete env a o.ion o.mono _ o.isotope o.loss hdom hparse
 
+/-! ### the condensed form stays inside the domain -/
+
+theorem mem_internalAppend_mods (d : List (Int × List Mod)) (i : Int) (ms : List Mod) :
+    ∀ x ∈ (internalAppend d i ms).flatMap (·.2), x ∈ d.flatMap (·.2) ∨ x ∈ ms := by
+  induction d with
+  | nil => intro x hx; simp [internalAppend] at hx; exact Or.inr hx
+  | cons q d ih =>
+    obtain ⟨k, v⟩ := q
+    intro x hx
+    simp only [internalAppend] at hx
+    split at hx
+    · simp only [List.flatMap_cons, List.mem_append] at hx ⊢
+      rcases hx with (h | h) | h
+      · exact Or.inl (Or.inl h)
+      · exact Or.inr h
+      · exact Or.inl (Or.inr h)
+    · simp only [List.flatMap_cons, List.mem_append] at hx ⊢
+      rcases hx with h | h
+      · exact Or.inl (Or.inl h)
+      · rcases ih x h with h' | h'
+        · exact Or.inl (Or.inr h')
+        · exact Or.inr h'
+
+def intModsOf (cur : Option (List (Int × List Mod))) : List Mod := (cur.getD []).flatMap (·.2)
+
+theorem mem_addInternal_mods (cur : Option (List (Int × List Mod))) (i : Int) (ms : List Mod) :
+    ∀ x ∈ intModsOf (addInternal cur i ms), x ∈ intModsOf cur ∨ x ∈ ms := by
+  intro x hx
+  cases cur with
+  | none => simp [addInternal, intModsOf] at hx; exact Or.inr hx
+  | some d => exact mem_internalAppend_mods d i ms x (by simpa [addInternal, intModsOf] using hx)
+
+theorem mem_addInternalAt_mods (idx : List ℕ) (cur : Option (List (Int × List Mod))) (ms : List Mod) :
+    ∀ x ∈ intModsOf (addInternalAt cur idx ms), x ∈ intModsOf cur ∨ x ∈ ms := by
+  induction idx generalizing cur with
+  | nil => intro x hx; exact Or.inl hx
+  | cons j idx ih =>
+    intro x hx
+    have : addInternalAt cur (j :: idx) ms = addInternalAt (addInternal cur (Int.ofNat j) ms) idx ms := rfl
+    rw [this] at hx
+    rcases ih _ x hx with h | h
+    · exact mem_addInternal_mods cur _ ms x h
+    · exact Or.inr h
+
+theorem mem_applyResidueRules_mods (seq : List Char) (m : StaticMap) (cur : Option (List (Int × List Mod))) :
+    ∀ x ∈ intModsOf (applyResidueRules seq cur m), x ∈ intModsOf cur ∨ ∃ p ∈ m, x ∈ p.2 := by
+  induction m generalizing cur with
+  | nil => intro x hx; exact Or.inl hx
+  | cons q m ih =>
+    obtain ⟨k, ms⟩ := q
+    intro x hx
+    simp only [applyResidueRules] at hx
+    split at hx
+    · rcases ih cur x hx with h | ⟨p, hp, hxp⟩
+      · exact Or.inl h
+      · exact Or.inr ⟨p, by simp [hp], hxp⟩
+    · rcases ih _ x hx with h | ⟨p, hp, hxp⟩
+      · rcases mem_addInternalAt_mods _ cur ms x h with h' | h'
+        · exact Or.inl h'
+        · exact Or.inr ⟨(k, ms), by simp, h'⟩
+      · exact Or.inr ⟨p, by simp [hp], hxp⟩
+
+theorem dictGet_mem {α} (m : List (List Char × α)) (k : List Char) (v : α) (h : dictGet m k = some v) : (k, v) ∈ m := by
+  induction m with
+  | nil => simp [dictGet] at h
+  | cons p m ih =>
+    obtain ⟨k', v'⟩ := p
+    simp only [dictGet] at h
+    split at h
+    · rename_i hk; subst hk; simp only [Option.some.injEq] at h; subst h; simp
+    · exact List.mem_cons_of_mem _ (ih h)
+
+/-- every written modification of the condensed annotation was written on the rule form or belongs to a rule -/
+theorem mem_placedMods_applyMap (a : Annotation) (m : StaticMap) (ion : Key) :
+    ∀ x ∈ placedMods (applyMap a m) ion, x ∈ placedMods a ion ∨ ∃ p ∈ m, x ∈ p.2 := by
+  intro x hx
+  unfold placedMods at hx ⊢
+  simp only [applyMap, List.mem_append] at hx ⊢
+  have hterm : ∀ (cur : Option (List Mod)) (key : List Char),
+      x ∈ (match dictGet m key with | some ms => appendMods cur ms | none => cur).getD [] →
+      x ∈ cur.getD [] ∨ ∃ p ∈ m, x ∈ p.2 := by
+    intro cur key h
+    cases hd : dictGet m key with
+    | none => rw [hd] at h; exact Or.inl h
+    | some ms =>
+      rw [hd] at h
+      cases cur with
+      | none => simp [appendMods] at h; exact Or.inr ⟨(key, ms), dictGet_mem m key ms hd, h⟩
+      | some l =>
+        simp only [appendMods, Option.getD_some, List.mem_append] at h
+        rcases h with h | h
+        · exact Or.inl (by simpa using h)
+        · exact Or.inr ⟨(key, ms), dictGet_mem m key ms hd, h⟩
+  rcases hx with ((((h | h) | h) | h) | h) | h
+  · exact Or.inl (Or.inl (Or.inl (Or.inl (Or.inl (Or.inl h)))))
+  · exact Or.inl (Or.inl (Or.inl (Or.inl (Or.inl (Or.inr h)))))
+  · rcases hterm a.nterm nTermKey h with h' | h'
+    · exact Or.inl (Or.inl (Or.inl (Or.inl (Or.inr h'))))
+    · exact Or.inr h'
+  · exact Or.inl (Or.inl (Or.inl (Or.inr h)))
+  · rcases mem_applyResidueRules_mods a.seq m a.internal x h with h' | h'
+    · exact Or.inl (Or.inl (Or.inr h'))
+    · exact Or.inr h'
+  · rcases hterm a.cterm cTermKey h with h' | h'
+    · exact Or.inl (Or.inr h')
+    · exact Or.inr h'
+
+/-- **condensing keeps the annotation inside C02's domain** -/
+theorem inDomain_condense (env : Pept.Env) (a c : Annotation) (ion : Key) (mono : Bool)
+    (hdom : inDomain env a ion mono none = true) (hparse : ParseAgrees env a) (hc : condenseStatic a = .ok c) :
+    inDomain env c ion mono none = true := by
+  unfold inDomain at hdom ⊢
+  simp only [Bool.and_eq_true] at hdom ⊢
+  obtain ⟨⟨⟨⟨hres, hoff⟩, hmods⟩, hstat⟩, _⟩ := hdom
+  unfold condenseStatic at hc
+  cases hs : a.static with
+  | none =>
+    simp only [hs] at hc
+    have : c = a := (Except.ok.inj hc).symm
+    subst this
+    exact ⟨⟨⟨⟨hres, hoff⟩, hmods⟩, by simp [hs]⟩, trivial⟩
+  | some st =>
+    obtain ⟨m, hm1, hm2, _⟩ := hparse st hs
+    simp only [hs, hm2] at hc
+    have hce : c = applyMap a m := (Except.ok.inj hc).symm
+    subst hce
+    rw [hs] at hstat
+    simp only [hm1] at hstat
+    refine ⟨⟨⟨⟨hres, hoff⟩, ?_⟩, rfl⟩, trivial⟩
+    rw [List.all_eq_true]
+    intro x hx
+    rcases mem_placedMods_applyMap a m ion x hx with h | ⟨p, hp, hxp⟩
+    · exact List.all_eq_true.mp hmods x h
+    · exact List.all_eq_true.mp (List.all_eq_true.mp hstat p hp) x hxp
+
+/-- **`mass` of the rule form = `mass` of the condensed explicit form, in the concrete model of C02** (no labels, no adducts):
+both calls of `Mass.mass` succeed and return the same number -/
+theorem mass_condense_concrete (env : Pept.Env) (a c : Annotation) (o : Mass.Opts)
+    (hlab : o.isotopeMods = none) (hlab' : a.isotope = none) (hadd : o.adducts = none) (hadd' : a.adducts = none)
+    (hprec : o.precision = none)
+    (hdom : inDomain env a o.ion o.mono none = true) (hparse : ParseAgrees env a) (hc : condenseStatic a = .ok c) :
+    ∃ x, Mass.mass env a o = .ok x ∧ Mass.mass env c o = .ok x := by
+  have hfields : c.isotope = a.isotope ∧ c.adducts = a.adducts ∧ c.charge = a.charge ∧ c.static = none := by
+    unfold condenseStatic at hc
+    cases hs : a.static with
+    | none => simp only [hs] at hc; have := (Except.ok.inj hc).symm; subst this; exact ⟨rfl, rfl, rfl, hs⟩
+    | some st =>
+      obtain ⟨m, _, hm2, _⟩ := hparse st hs
+      simp only [hs, hm2] at hc
+      have := (Except.ok.inj hc).symm; subst this; exact ⟨rfl, rfl, rfl, rfl⟩
+  obtain ⟨hci, hca, hcc, hcs⟩ := hfields
+  have hparse_c : ParseAgrees env c := by intro st hst; rw [hcs] at hst; cases hst
+  have hdom_c := inDomain_condense env a c o.ion o.mono hdom hparse hc
+  obtain ⟨x, hx1, hx2⟩ := mass_bridge env a o hlab hlab' hadd hadd' hprec hdom hparse
+  obtain ⟨y, hy1, hy2⟩ := mass_bridge env c o hlab (by rw [hci, hlab']) hadd (by rw [hca, hadd']) hprec hdom_c hparse_c
+  have heff : Mass.effCharge c o = Mass.effCharge a o := by unfold Mass.effCharge; rw [hcc]
+  rw [heff] at hy2
+  -- the abstract theorem of C12: condensing does not change `massOf`, for any weights
+  have habs : AbsMass.massOf (envFor env o.ion o.mono ((Mass.effCharge a o).getD 0) o.isotope o.loss) c =
+      AbsMass.massOf (envFor env o.ion o.mono ((Mass.effCharge a o).getD 0) o.isotope o.loss) a := by
+    have hfast := massFast_condense (envFor env o.ion o.mono ((Mass.effCharge a o).getD 0) o.isotope o.loss) a
+    rw [hc] at hfast
+    have h1 : AbsMass.massOf (envFor env o.ion o.mono ((Mass.effCharge a o).getD 0) o.isotope o.loss) a =
+        AbsMass.massFast (envFor env o.ion o.mono ((Mass.effCharge a o).getD 0) o.isotope o.loss) a := by
+      simp [AbsMass.massOf, hlab']
+    have h2 : AbsMass.massOf (envFor env o.ion o.mono ((Mass.effCharge a o).getD 0) o.isotope o.loss) c =
+        AbsMass.massFast (envFor env o.ion o.mono ((Mass.effCharge a o).getD 0) o.isotope o.loss) c := by
+      simp [AbsMass.massOf, hci, hlab']
+    rw [h1, h2]; exact hfast
+  rw [habs, hx2] at hy2
+  have : y = x := (Except.ok.inj hy2).symm
+  subst this
+  exact ⟨y, hx1, hy1⟩
+
 end Concrete
 end Pept
